@@ -127,6 +127,85 @@ Theorem C16_effects_balanced :
 Proof. exact spec_ctx_balanced. Qed.
 Print Assumptions C16_effects_balanced.
 
+(* between `Push e id` and its `Pop e id` lie only events of the sub-tree of
+   box id (and the brackets are well nested): the "only" half of
+   effects_bracket_subtree, for every tree *)
+Theorem C16_effects_bracket_subtree_partial :
+  forall zsort, z_then_tree_order css_level zsort ->
+  forall root, scoped (subtree_ids root) (spec_paint impl_forms_ctx css_level zsort root).
+Proof. exact effects_bracket_subtree_partial. Qed.
+Print Assumptions C16_effects_bracket_subtree_partial.
+
+(* every event painted for a (pseudo) stacking context names a box of its sub-tree *)
+Theorem C16_event_ids_in_subtree :
+  forall zsort, z_then_tree_order css_level zsort ->
+  forall n real b e, In e (spec_ctx impl_forms_ctx css_level zsort n real b) -> In (ev_id e) (ids b).
+Proof. exact spec_ctx_ids. Qed.
+Print Assumptions C16_event_ids_in_subtree.
+
+(* the root of a context: group effects, background + border, content, then its outline *)
+Theorem C16_context_root_order :
+  forall forms_ctx level zsort n real b,
+  exists content outlines,
+    spec_ctx forms_ctx level zsort (S n) real b =
+      wrap EOpacity (bopac (binfo_of b)) (bid (binfo_of b))
+        (wrap ETransform (btrans (binfo_of b) && css_transformable (bkind (binfo_of b))) (bid (binfo_of b))
+           ((if css_paints_box_decoration (bkind (binfo_of b))
+             then [Bg (bid (binfo_of b)); Border (bid (binfo_of b))] else [])
+            ++ wrap EClip (bclip (binfo_of b) && negb (is_page (bkind (binfo_of b)))) (bid (binfo_of b)) content
+            ++ Outline (bid (binfo_of b)) :: outlines)).
+Proof. exact spec_ctx_root_shape. Qed.
+Print Assumptions C16_context_root_order.
+
+(* the partition and the two sorts lose / duplicate no child context *)
+Theorem C16_partition_permutation : forall i kids cc blocks floats bac,
+  match new_context i kids cc blocks floats bac with
+  | Ctx _ _ _ neg zero pos _ _ _ => Permutation cc (neg ++ zero ++ pos)
+  end.
+Proof. exact new_context_perm. Qed.
+Print Assumptions C16_partition_permutation.
+
+(* ---- stated, proved only in part (the parts are the theorems above), and
+   tested on the model's events of every harness case (Check/C16.v code 8) ---- *)
+
+(* every_box_painted_once: no event is issued twice.
+   Proved part: C16_partition_permutation (no context lost or duplicated by
+   NewStackingContext), C16_event_ids_in_subtree. *)
+Definition C16_every_box_painted_once_statement : Prop :=
+  forall zsort, z_then_tree_order css_level zsort ->
+  forall b, wf_shape b = true -> NoDup (ids b) ->
+  NoDup (spec_paint impl_forms_ctx css_level zsort b).
+
+(* per_box_order: Bg < Border < Content < Outline for each id.
+   Proved part: C16_background_then_border, C16_border_after_background
+   (Bg immediately before Border, all boxes), C16_context_root_order. *)
+Definition C16_per_box_order_statement : Prop :=
+  forall zsort, z_then_tree_order css_level zsort ->
+  forall b, wf_shape b = true -> NoDup (ids b) ->
+  forall id l1 l2,
+  (spec_paint impl_forms_ctx css_level zsort b = l1 ++ Outline id :: l2 ->
+     ~ In (Bg id) l2 /\ ~ In (Border id) l2 /\ ~ In (Content id) l2)
+  /\ (spec_paint impl_forms_ctx css_level zsort b = l1 ++ Content id :: l2 ->
+     ~ In (Bg id) l2 /\ ~ In (Border id) l2).
+
+(* effects_bracket_subtree, the "all" half: nothing of the sub-tree of an
+   opacity / transform box is painted outside its bracket (for the overflow
+   clip: nothing but its own background, border, group effects and the
+   outlines of step 10).
+   Proved part: C16_effects_bracket_subtree_partial, C16_effects_balanced. *)
+Definition C16_effects_bracket_subtree_statement : Prop :=
+  forall zsort, z_then_tree_order css_level zsort ->
+  forall b, wf_shape b = true -> NoDup (ids b) ->
+  forall e id l1 l2 l3,
+  spec_paint impl_forms_ctx css_level zsort b = l1 ++ Push e id :: l2 ++ Pop e id :: l3 ->
+  forall x, In x (l1 ++ l3) -> In (ev_id x) (subtree_ids b id) ->
+  match x with
+  | Push _ i | Pop _ i => i = id
+  | Bg i | Border i => e = EClip /\ i = id
+  | Outline _ => e = EClip
+  | _ => False
+  end.
+
 (* ---- the hypotheses are inhabited ---- *)
 
 Example C16_zsort_exists : z_then_tree_order css_level (isort (fun b => css_level (binfo_of b))).
